@@ -122,6 +122,27 @@ func GenConc(t *rapid.T) ConcCase {
 		}
 		c.Threads = append(c.Threads, ops)
 	}
+	// (session 3) crossing walks: one goroutine walks a -> b while another walks b -> a, both
+	// shared fids that are normally bound already (duplicate fid), with a third request on a
+	// in flight.  Each walk names a different new fid, so this is inside the property's proviso;
+	// an implementation that waits for the target fid while holding the source deadlocks here.
+	if rapid.IntRange(0, 5).Draw(t, "crossing") == 0 {
+		a := rapid.SampledFrom(pool).Draw(t, "crossa")
+		b := pool[(int(a)+1+rapid.IntRange(0, 2).Draw(t, "crossb"))%4]
+		ins := func(gi int, op sessfs.Op) {
+			at := rapid.IntRange(0, len(c.Threads[gi])).Draw(t, "crossat")
+			ops := append([]sessfs.Op(nil), c.Threads[gi][:at]...)
+			ops = append(ops, op)
+			c.Threads[gi] = append(ops, c.Threads[gi][at:]...)
+		}
+		var names []string
+		if rapid.Bool().Draw(t, "crossnames") {
+			names = []string{"a"}
+		}
+		ins(0, sessfs.Op{Kind: "walk", Fid: a, Newfid: b, Names: names})
+		ins(1, sessfs.Op{Kind: "walk", Fid: b, Newfid: a, Names: names})
+		ins(len(c.Threads)-1, sessfs.Op{Kind: "stat", Fid: a})
+	}
 	c.Sched = rapid.SliceOfN(rapid.IntRange(0, 7), 1, 40).Draw(t, "sched")
 	c.Free = rapid.IntRange(0, 3).Draw(t, "free") == 0
 	return c
@@ -478,6 +499,15 @@ func RunConc(c ConcCase) harn.Result {
 	res.NonTrivial = overlap
 	if overlap {
 		res.Classes = append(res.Classes, "same_fid_overlap")
+	}
+	for gi := 0; gi+1 < len(c.Threads) && gi < 1; gi++ {
+		for _, x := range c.Threads[0] {
+			for _, y := range c.Threads[1] {
+				if x.Kind == "walk" && y.Kind == "walk" && x.Fid == y.Newfid && y.Fid == x.Newfid && x.Fid != x.Newfid && x.Fid < 100 && x.Newfid < 100 {
+					res.Classes = append(res.Classes, "crossing_walks")
+				}
+			}
+		}
 	}
 	if c.Free {
 		res.Classes = append(res.Classes, "free_running")
